@@ -89,10 +89,10 @@ def split_multi(text):
     cur = "main.capy"
     buf = []
     for line in text.split("\n"):
-        if line.startswith("#- "):
+        if line.lstrip().startswith("#- "):
             if buf and "".join(buf).strip():
                 files[cur] = "\n".join(buf)
-            cur = line[3:].strip()
+            cur = line.lstrip()[3:].strip()
             buf = []
         else:
             buf.append(line)
